@@ -213,3 +213,20 @@ pub fn blk_digest(mask: &str, which: &str, s: u8) -> u64 {
     }
     h
 }
+
+/// `TryFrom<(u8, U7, U7)> for RawShortMessage` and `Into<(u8, U7, U7)>` (derive_more::Into)
+pub fn rawx_obs(s: u8, d1: u8, d2: u8) -> Obs {
+    guarded(|o| match <RawShortMessage as core::convert::TryFrom<(u8, U7, U7)>>::try_from((s, u7(d1), u7(d2))) {
+        Err(_) => o.n(0),
+        Ok(m) => {
+            o.n(1);
+            let t: (u8, U7, U7) = m.into();
+            bytes_obs(t, o);
+        }
+    })
+}
+pub fn rawxblk_digest(s: u8) -> u64 {
+    let mut h = FNV_INIT;
+    for d1 in 0..128u8 { for d2 in 0..128u8 { h = digest(h, &rawx_obs(s, d1, d2)); } }
+    h
+}
